@@ -777,10 +777,13 @@ def FilePreservationSyncUtil(file_from, file_to) -> None:
     print(" Executing in : " + os.path.realpath(__file__))
     print("*************************************")
 
-    bg = CGenerator(os.path.dirname(file_from), os.path.dirname(file_to))
-    cm = bg.loadtemplates_firstfiltering_FILE(file_to, {}, {})
+    # The destination is not a template: read and write it as it is (no template filtering,
+    # no newline/TAB normalisation) so that only the bodies of shared tags change.
+    with open(file_to, errors='surrogateescape') as f:
+        filenames_to_lines = OrderedDict([(file_to, list(f))])
     p  = Preservative(file_from)
     p.preserved_tags_per_file[file_to]          = p.preserved_tags_per_file.pop(file_from)
     p.preserved_tags_per_file_WAS_USED[file_to] = p.preserved_tags_per_file_WAS_USED.pop(file_from)
-    p.Emplace(cm.filenames_to_lines, True)
-    bg.createoutput(cm.filenames_to_lines)
+    p.Emplace(filenames_to_lines, True)
+    # Only the destination is written: tags that exist in 'file_from' alone are not lost code.
+    writeFileAtomically(file_to, filenames_to_lines[file_to])
